@@ -32,6 +32,9 @@ structure Cand where
   pieceLength : Nat
   /-- `info['pieces']` cut into digests -/
   hashes : List Digest
+  /-- some path component of some file entry is a `bytes` object (it was not valid UTF-8 when the
+      torrent file was read) — such a path cannot be joined with `os.sep` -/
+  bytesPath : Bool := false
 deriving DecidableEq, Repr, Inhabited
 
 /-- the torrent `reuse()` is called on: the part of its metainfo (and settings) that matters -/
@@ -108,12 +111,19 @@ def total (items : List Item) : Nat := (items.filter Item.counted).length
 /-- `os.sep.join((name, *file['path']))` -/
 def joined (name : String) (f : FileEnt) : String := String.intercalate "/" (name :: f.path)
 
-/-- `_get_filepaths_and_sizes(info)` (before sorting) -/
-def filepathsAndSizes (name : String) (single : Bool) (files : List FileEnt) :
+/-- `_get_filepaths_and_sizes(info)` (before sorting).  The kind of the torrent is explicit:
+    `single` = the info dictionary has `length` (one entry without components), otherwise it has
+    `files`.  A single-file torrent is identified by `[(name, length)]`, a multi-file torrent by
+    the list of (name joined with the components, size): the *name prefix* is what keeps a file
+    `N` apart from a directory `N` that holds one file `N`.  `bytesPath`: a component is a bytes
+    object, `os.sep.join` raises TypeError. -/
+def filepathsAndSizes (name : String) (single : Bool) (files : List FileEnt) (bytesPath : Bool := false) :
     Except Err (List (String × Nat)) :=
   let length := if single then (files.head?.map (·.size)).getD 0 else 0
   if length ≠ 0 then .ok [(name, length)]
-  else if !single && !files.isEmpty then .ok (files.map fun f => (joined name f, f.size))
+  else if !single && !files.isEmpty then
+    if bytesPath then .error (.internal "TypeError")
+    else .ok (files.map fun f => (joined name f, f.size))
   else .error (.internal "RuntimeError")
 
 def isFileMatch (t : Tor) (c : Cand) : Except Err Bool :=
@@ -121,7 +131,7 @@ def isFileMatch (t : Tor) (c : Cand) : Except Err Bool :=
   match filepathsAndSizes t.name t.single t.files with
   | .error e => .error e
   | .ok tid =>
-    match filepathsAndSizes c.name c.single c.files with
+    match filepathsAndSizes c.name c.single c.files c.bytesPath with
     | .error e => .error e
     | .ok cid =>
       if tid.isPerm cid then .ok (decide (t.plMin ≤ c.pieceLength) && decide (c.pieceLength ≤ t.plMax))
